@@ -258,7 +258,7 @@ def build_request(mode, argv=(), files=None, faults=(), console=(), sigs=(), env
         w.bytes(line)
     w.u32(len(sigs))
     for s in sigs:
-        w.u8({"usleep": 0, "event": 1, "stdout": 2}[s["trigger"]])
+        w.u8({"usleep": 0, "event": 1, "stdout": 2, "during": 3}[s["trigger"]])
         w.u64(s["k"])
         w.u32(s.get("after", 0))
     w.b += extra
